@@ -79,6 +79,78 @@ func isLoadOfVar(v ssa.Value, name string) bool {
 	return false
 }
 
+// varOf: the name of the variable v is a load of ("" if v is not a plain load of a named variable).
+func varOf(v ssa.Value) string {
+	for {
+		switch x := v.(type) {
+		case *ssa.ChangeInterface:
+			v = x.X
+			continue
+		case *ssa.ChangeType:
+			v = x.X
+			continue
+		case *ssa.MakeInterface:
+			v = x.X
+			continue
+		}
+		break
+	}
+	u, ok := v.(*ssa.UnOp)
+	if !ok {
+		return ""
+	}
+	switch x := u.X.(type) {
+	case *ssa.FreeVar:
+		return x.Name()
+	case *ssa.Alloc:
+		return x.Comment
+	}
+	return ""
+}
+
+// workerBody is a function whose code runs as part of a worker: the closure handed to eg.Go, or a module function
+// that closure calls (a worker extracted into a named function). env maps the function's own variable names to the
+// variables of RunNamedPipe they carry (nil = the closure itself: captured variables keep their names).
+type workerBody struct {
+	fn  *ssa.Function
+	env map[string]string
+}
+
+func (b workerBody) outer(v ssa.Value) string {
+	n := varOf(v)
+	if n == "" || b.env == nil {
+		return n
+	}
+	return b.env[n]
+}
+
+// workerBodies: the closure and, one level down, the module functions it calls with RunNamedPipe's variables.
+func workerBodies(cl *ssa.Function) []workerBody {
+	out := []workerBody{{fn: cl}}
+	for _, blk := range cl.Blocks {
+		for _, in := range blk.Instrs {
+			c, ok := in.(*ssa.Call)
+			if !ok {
+				continue
+			}
+			f := c.Common().StaticCallee()
+			if f == nil || f.Blocks == nil || !strings.HasPrefix(fnPkgPath(f), modulePath+"/cmd") {
+				continue
+			}
+			env := map[string]string{}
+			for i, a := range c.Common().Args {
+				if i < len(f.Params) {
+					if n := varOf(a); n != "" {
+						env[f.Params[i].Name()] = n
+					}
+				}
+			}
+			out = append(out, workerBody{fn: f, env: env})
+		}
+	}
+	return out
+}
+
 func isContextType(t types.Type) bool {
 	return types.TypeString(t, nil) == "context.Context"
 }
@@ -116,23 +188,25 @@ func (w *World) wiringRunNamedPipe() []*Obligation {
 		cl := mc.Fn.(*ssa.Function)
 		bad := ""
 		n := 0
-		for _, b := range cl.Blocks {
-			for _, in := range b.Instrs {
-				c, ok := in.(*ssa.Call)
-				if !ok {
-					continue
-				}
-				sig := c.Common().Signature()
-				args := c.Common().Args
-				off := 0
-				if sig.Recv() != nil && !c.Common().IsInvoke() {
-					off = 1
-				}
-				for p := 0; p < sig.Params().Len(); p++ {
-					if isContextType(sig.Params().At(p).Type()) && p+off < len(args) {
-						n++
-						if !isLoadOfVar(args[p+off], "groupCtx") {
-							bad = fmt.Sprintf("call %s receives a context other than groupCtx", c.Common().Value.Name())
+		for _, wb := range workerBodies(cl) {
+			for _, b := range wb.fn.Blocks {
+				for _, in := range b.Instrs {
+					c, ok := in.(*ssa.Call)
+					if !ok {
+						continue
+					}
+					sig := c.Common().Signature()
+					args := c.Common().Args
+					off := 0
+					if sig.Recv() != nil && !c.Common().IsInvoke() {
+						off = 1
+					}
+					for p := 0; p < sig.Params().Len(); p++ {
+						if isContextType(sig.Params().At(p).Type()) && p+off < len(args) {
+							n++
+							if wb.outer(args[p+off]) != "groupCtx" {
+								bad = fmt.Sprintf("call %s receives a context other than groupCtx", c.Common().Value.Name())
+							}
 						}
 					}
 				}
@@ -211,37 +285,40 @@ func (w *World) wiringRunNamedPipe() []*Obligation {
 		if !ok {
 			continue
 		}
-		cl := mc.Fn.(*ssa.Function)
-		for _, c := range callsTo(cl, modulePath+"/processors/sshd.NewSshdProcessor") {
-			a := c.Common().Args
-			if len(a) >= 5 && isLoadOfVar(a[4], "eventWriter") {
-				sshdOK = true
+		cl0 := mc.Fn.(*ssa.Function)
+		for _, wb := range workerBodies(cl0) {
+			cl := wb.fn
+			for _, c := range callsTo(cl, modulePath+"/processors/sshd.NewSshdProcessor") {
+				a := c.Common().Args
+				if len(a) >= 5 && wb.outer(a[4]) == "eventWriter" {
+					sshdOK = true
+				}
+				if len(a) >= 2 && wb.outer(a[1]) == "logins" {
+					loginsSshd = true
+				}
 			}
-			if len(a) >= 2 && isLoadOfVar(a[1], "logins") {
-				loginsSshd = true
-			}
-		}
-		for _, b := range cl.Blocks {
-			for _, in := range b.Instrs {
-				st, ok := in.(*ssa.Store)
-				if !ok {
-					continue
-				}
-				fa, ok := st.Addr.(*ssa.FieldAddr)
-				if !ok {
-					continue
-				}
-				stT, ok := derefType(fa.X.Type()).Underlying().(*types.Struct)
-				if !ok || !strings.HasSuffix(types.TypeString(derefType(fa.X.Type()), nil), "auditd.Auditd") {
-					continue
-				}
-				switch stT.Field(fa.Field).Name() {
-				case "EventW":
-					auditdOK = auditdOK || isLoadOfVar(st.Val, "eventWriter")
-				case "Logins":
-					loginsAuditd = loginsAuditd || isLoadOfVar(st.Val, "logins")
-				case "Audits":
-					auditsOK = auditsOK || isLoadOfVar(st.Val, "auditLogChan")
+			for _, b := range cl.Blocks {
+				for _, in := range b.Instrs {
+					st, ok := in.(*ssa.Store)
+					if !ok {
+						continue
+					}
+					fa, ok := st.Addr.(*ssa.FieldAddr)
+					if !ok {
+						continue
+					}
+					stT, ok := derefType(fa.X.Type()).Underlying().(*types.Struct)
+					if !ok || !strings.HasSuffix(types.TypeString(derefType(fa.X.Type()), nil), "auditd.Auditd") {
+						continue
+					}
+					switch stT.Field(fa.Field).Name() {
+					case "EventW":
+						auditdOK = auditdOK || wb.outer(st.Val) == "eventWriter"
+					case "Logins":
+						loginsAuditd = loginsAuditd || wb.outer(st.Val) == "logins"
+					case "Audits":
+						auditsOK = auditsOK || wb.outer(st.Val) == "auditLogChan"
+					}
 				}
 			}
 		}
